@@ -106,6 +106,7 @@ class Model:
         self.sections = {}  # name -> [Unit]
         self.section_order = []
         self.proxy_syms = set()  # names bound to proxies (externs, proxied)
+        self.abs_syms = []  # names of absolute (integer-valued) module symbols
         self.spans = {}  # key -> Span (current session)
         self.span_list = {}  # section -> [Span] in order
         self.funcs = {}  # func id -> {"name": sym name}
